@@ -18,7 +18,8 @@ Model: `PPLV/Solver/Pending.lean` (`PPLV.Solver.Pend`), a transliteration of `pa
 * (c)  `second_phase_sound`, `reoptimize_value_eq_fresh`, `reoptimize_value_eq_fresh_tableau`
                                         second_phase from ANY feasible basis is optimal / unbounded exactly when
                                         the LP is: in status and value a re-optimisation equals a fresh solve;
-       `status_sound_partial`          the status protocol of the mutators and solvers;
+       `status_transitions`            the status transitions of the mutators and solvers (the full protocol
+                                        with the feasible-basis invariant: `status_sound` in `C06TabIncr.lean`);
 * (d)  `textbook_is_candidate`, `steepestEdgeExact_is_candidate`, `arbitrary_is_candidate`,
        `pricing_choice_irrelevant`, `pricing_same_answer`
                                         every pricing rule that picks a candidate column gives correct answers.
@@ -27,8 +28,8 @@ Model: `PPLV/Solver/Pending.lean` (`PPLV.Solver.Pend`), a transliteration of `pa
        `lp_fresh_correct` — status, witness `last_generator` and optimality against `Sat` / `Better`.
 
 Not covered: termination (anti-cycling) — the loops are fuelled and every theorem has the hypothesis that the
-fuel sufficed; (b1) and the chain set-up → first phase for the incremental case (see `tableau_setup_solutions`,
-`status_sound_partial`).
+fuel sufficed.  (b1) and the chain set-up → first phase for the INCREMENTAL case are in `C06TabIncr.lean`
+(`incremental_setup_hands_over`, `lp_incremental_correct`, `status_sound`).
 -/
 namespace C06
 open PPLV.Lin PPLV.Solver PPLV.Solver.Tab PPLV.Solver.Pend
@@ -429,22 +430,17 @@ example : (computeSimplexWith textbookChooser 5 exTab).map (fun r => (r.1, r.2.c
   show ((-4 : Int) : Rat) / ((-1 : Int) : Rat) = 4
   norm_num
 
-/-- (c) **the status protocol** (`StatusInv s`: a status SATISFIABLE / UNBOUNDED / OPTIMIZED promises that no
+/-- (c) **the status transitions** (`StatusInv s`: a status SATISFIABLE / UNBOUNDED / OPTIMIZED promises that no
     constraint and no space dimension is pending).  It holds initially, every mutator keeps it — `add_constraint`
     and `add_space_dimensions_and_embed` never leave such a status (PARTIALLY_SATISFIABLE, or UNSATISFIABLE which is
     sticky), `set_objective_function` / `set_optimization_mode` turn UNBOUNDED / OPTIMIZED into SATISFIABLE and give
     SATISFIABLE only if the problem was solved — the mutators do not touch tableau, base, mapping and cost row (a
     feasible basis of the processed constraints stays one), `is_lp_satisfiable()` establishes it and answers
     `status ≠ UNSATISFIABLE`, `second_phase()` keeps it and ends solved.
-    `_partial`: the part "solved status ⇒ the basis is feasible" is proved through the simplex phases
-    (`pricing_choice_irrelevant` (b), `second_phase_sound`), through `erase_artificials`
-    (`erase_artificials_feasible_basis`), for the data the mutators keep, and — for a problem never solved before —
-    through the set-up (`setup_hands_canon_to_phase1`: the tableau with its first-phase cost row is `Canon`, using the
-    count "number of artificial columns = number of rows not worked out") and the end of the first phase
-    (`phase1_decides_feasibility`: cost value 0 gives `ArtInv`); `lp_fresh_correct` chains them to the final answers.  What is
-    still missing is only the same link for an INCREMENTAL call of `process_pending_constraints` (re-merged
-    variables, old rows, rows combined against the base). -/
-theorem status_sound_partial (s : LPState) (h : StatusInv s) (c : ICon) (e : LinExpr) (b : Bool) (m : Nat) (p : Pricing) :
+    The remaining part of the protocol — "solved status ⇒ the basis is feasible and encodes the processed
+    constraints, the answers are truthful", through fresh AND incremental calls — is `C06.status_sound`
+    (`PPLV/Props/C06TabIncr.lean`, invariant `ProtoInv`). -/
+theorem status_transitions (s : LPState) (h : StatusInv s) (c : ICon) (e : LinExpr) (b : Bool) (m : Nat) (p : Pricing) :
     StatusInv (LPState.new m) ∧
     (StatusInv (addConstraint s c) ∧ StatusInv (setObjectiveFunction s e) ∧ StatusInv (setOptimizationMode s b) ∧
       StatusInv (addSpaceDimensionsAndEmbed s m) ∧ StatusInv (setPricing s p)) ∧
